@@ -19,22 +19,56 @@ def _I():
     return interp
 
 
-class TimeStr:
-    """abstraction of an opaque user string by parse classes (DESIGN.md 4/C11):
-       ncolon in {0,1,2+};  part0 class: 'H' (1-2 digits, < 24), 'WSH' (blanks then H), 'other';
-       part1 class: 'M' (1-2 digits, < 60), 'other'.   Symbols: NC, C0, C1 (Ints), HV, MV (values)."""
+class TimeStr(Seq):
+    """an arbitrary user string, abstracted by parse classes (DESIGN.md 4/C11) and still usable as text:
+       ncolon in {0,1,2+};  part0 class: 0 'H' (1-2 digits, < 24), 1 'WSH' (blanks then H), 2 other;
+       part1 class: 0 'M' (1-2 digits, < 60), 1 other.
+       When the string is a valid HH:MM its characters are DEFINED by (H, M, number of digits of each), so that text
+       built from it is exact; otherwise the characters are an unconstrained array."""
+    __slots__ = ("name", "nc", "c0", "c1", "hv", "mv", "hd", "md")
+
     def __init__(self, name, ctx):
         self.name = name
-        self.nc = z3.Int(name + "$ncolon")      # 0, 1, 2 (=2 or more)
-        self.c0 = z3.Int(name + "$class0")      # 0 = H, 1 = WSH, 2 = other
-        self.c1 = z3.Int(name + "$class1")      # 0 = M, 1 = other
+        self.nc = z3.Int(name + "$ncolon")      # 0, 1, 2 (= 2 or more)
+        self.c0 = z3.Int(name + "$class0")
+        self.c1 = z3.Int(name + "$class1")
         self.hv = z3.Int(name + "$H")
         self.mv = z3.Int(name + "$M")
-        ctx.fact(z3.And(self.nc >= 0, self.nc <= 2, self.c0 >= 0, self.c0 <= 2, self.c1 >= 0, self.c1 <= 1,
-                        self.hv >= 0, self.hv < 24, self.mv >= 0, self.mv < 60))
+        self.hd = z3.Int(name + "$Hdigits")
+        self.md = z3.Int(name + "$Mdigits")
+        nc, c0, c1, hv, mv, hd, md = self.nc, self.c0, self.c1, self.hv, self.mv, self.hd, self.md
+        ctx.fact(z3.And(nc >= 0, nc <= 2, c0 >= 0, c0 <= 2, c1 >= 0, c1 <= 1, hv >= 0, hv < 24, mv >= 0, mv < 60,
+                        hd >= 1, hd <= 2, md >= 1, md <= 2, z3.Implies(hd == 1, hv < 10), z3.Implies(md == 1, mv < 10)))
+        valid = z3.And(nc == 1, c0 == 0, c1 == 0)
+        raw = z3.Array(name + "$raw", IntS, IntS)
+        rawlen = z3.Int(name + "$rawlen")
+        ctx.fact(z3.And(rawlen >= 0, rawlen <= 64))
+        L = z3.If(valid, hd + 1 + md, rawlen)
+
+        def fn(i):
+            hpart = z3.If(hd == 2, z3.If(i == 0, hv / 10 + 48, hv % 10 + 48), hv + 48)
+            j = i - hd - 1
+            mpart = z3.If(md == 2, z3.If(j == 0, mv / 10 + 48, mv % 10 + 48), mv + 48)
+            return z3.If(valid, z3.If(i < hd, hpart, z3.If(i == hd, z3.IntVal(58), mpart)), z3.Select(raw, i))
+        g = Gen(L, fn, ("timestr", name), 0, (), None, char_fact)
+        Seq.__init__(self, 'str', [g])
 
     def valid(self):
         return simp(z3.And(self.nc == 1, self.c0 == 0, self.c1 == 0))
+
+    def concretise(self, m):
+        from .engine import model_value
+        nc, c0, c1 = (model_value(m, x) for x in (self.nc, self.c0, self.c1))
+        hv, mv, hd, md = (model_value(m, x) for x in (self.hv, self.mv, self.hd, self.md))
+        hs = str(hv).rjust(hd, "0")
+        ms = str(mv).rjust(md, "0")
+        p0 = {0: hs, 1: " " + hs, 2: hs + "x"}[c0]
+        p1 = {0: ms, 1: ms + "x"}[c1]
+        if nc == 0:
+            return p0
+        if nc == 1:
+            return p0 + ":" + p1
+        return p0 + ":" + p1 + ":30"
 
 
 class TimeStrPart:
@@ -58,34 +92,41 @@ class DatedTimeStr:
 
 
 def clock(ctx, kind):
-    """per-path clock symbols, created on first use; returns dict"""
+    """per-path clock symbols, created on first use.  All relations are linear (no div/mod):
+         utc   = (UDAY, UH, UM, US)      local = (LDAY, LH, LM, LS)      offset = 60 * OFFM, OFFM in [-720, 840]
+         LDAY*86400 + 3600 LH + 60 LM + LS  ==  UDAY*86400 + 3600 UH + 60 UM + US + 60 OFFM
+       weekday symbols: UDAY = 7 UK + UW - 3 ... i.e. (UDAY + 3) mod 7 == UW with 0 <= UW < 7 (same for local)"""
     c = getattr(ctx, "_clock", None)
     if c is None:
         c = {}
         ctx._clock = c
-    if kind not in c:
-        if kind == "utc":
-            day = z3.Int(fresh_name("UDAY"))
-            sod = z3.Int(fresh_name("USOD"))
-            ctx.fact(z3.And(sod >= 0, sod < 86400, day >= 0, day < 60000))
-            c[kind] = (day, sod)
-        elif kind == "offset":
-            off = z3.Int(fresh_name("OFFSET"))     # seconds, multiple of 60
-            ctx.fact(z3.And(off >= -12 * 3600, off <= 14 * 3600, off % 60 == 0))
-            c[kind] = off
-        elif kind == "local":
-            ud, us = clock(ctx, "utc")
-            off = clock(ctx, "offset")
-            tot = ud * 86400 + us + off
-            c[kind] = (simp(tot / 86400), simp(tot % 86400))
+        n = fresh_name("clk")
+        v = {k: z3.Int(f"{k}!{n}") for k in ("UK", "UW", "UH", "UM", "US", "LW", "LH", "LM", "LS", "OFFM", "DD", "CW")}
+        uday = 7 * v["UK"] + v["UW"] - 3
+        lday = uday + v["DD"]
+        usod = 3600 * v["UH"] + 60 * v["UM"] + v["US"]
+        lsod = 3600 * v["LH"] + 60 * v["LM"] + v["LS"]
+        # small-coefficient form of  local = utc + offset  (DD = day shift, CW = weekday wrap)
+        ctx.fact(z3.And(v["UW"] >= 0, v["UW"] < 7, v["LW"] >= 0, v["LW"] < 7, v["UK"] >= 1, v["UK"] < 8000,
+                        v["UH"] >= 0, v["UH"] < 24, v["UM"] >= 0, v["UM"] < 60, v["US"] >= 0, v["US"] < 60,
+                        v["LH"] >= 0, v["LH"] < 24, v["LM"] >= 0, v["LM"] < 60, v["LS"] == v["US"],
+                        v["OFFM"] >= -720, v["OFFM"] <= 840, v["DD"] >= -1, v["DD"] <= 1, v["CW"] >= -1, v["CW"] <= 1,
+                        v["LW"] == v["UW"] + v["DD"] - 7 * v["CW"],
+                        60 * v["LH"] + v["LM"] == 60 * v["UH"] + v["UM"] + v["OFFM"] - 1440 * v["DD"]))
+        c["v"] = v
+        c["utc"] = SymDateTime(uday, usod, "utc", (v["UH"], v["UM"], v["US"]))
+        c["utc"].wd = v["UW"]
+        c["local"] = SymDateTime(lday, lsod, "local", (v["LH"], v["LM"], v["LS"]))
+        c["local"].wd = v["LW"]
+        c["offset"] = 60 * v["OFFM"]
     return c[kind]
 
 
 def dt_now(ip, args, kw, ctx, kind):
-    day, sod = clock(ctx, kind)
-    ctx.ghost.clock_reads.append(("datetime." + ("utcnow" if kind == "utc" else "now"), (day, sod)))
-    ctx.used_models.add("datetime.now()/utcnow(): clock symbols (day, second of day); LOCAL = UTC + OFFSET with OFFSET free")
-    return SymDateTime(day, sod, kind)
+    d = clock(ctx, kind)
+    ctx.ghost.clock_reads.append(("datetime." + ("utcnow" if kind == "utc" else "now"), d))
+    ctx.used_models.add("datetime.now()/utcnow(): clock symbols (day, h, m, s); LOCAL = UTC + OFFSET with OFFSET free")
+    return d
 
 
 def hhmm_str(h, m, ctx):
@@ -149,7 +190,7 @@ def m_strptime_dt(ip, args, kw, ctx):
         raise _uns(f"datetime.strptime format {fmt}")
     h, m = parse_hhmm(ip, s, ctx)
     # 1900-01-01 is day -25567 since the epoch
-    return SymDateTime(-25567, simp(zi(h) * 3600 + zi(m) * 60), "naive")
+    return SymDateTime(-25567, simp(zi(h) * 3600 + zi(m) * 60), "naive", (h, m, 0))
 
 
 def m_time_ctor(ip, args, kw, ctx):
@@ -221,7 +262,8 @@ def local_date(ctx):
         c = {}
         ctx._clock = c
     if "ldate" not in c:
-        lday, _ = clock(ctx, "local")
+        clock(ctx, "local")
+        c = ctx._clock
         Y = z3.Int(fresh_name("LY"))
         M = z3.Int(fresh_name("LM"))
         D = z3.Int(fresh_name("LD"))
@@ -329,14 +371,16 @@ def time_method(ip, o, name, args, kw, ctx):
     if isinstance(o, SymDateTime):
         if name == "weekday":
             # 1970-01-01 was a Thursday (weekday 3)
+            if getattr(o, "wd", None) is not None:
+                return o.wd
             return simp((zi(o.day) + 3) % 7)
         if name == "time":
-            sod = zi(o.sod)
-            return SymTime(simp(sod / 3600), simp((sod / 60) % 60), simp(sod % 60))
+            h, m, s_ = o.parts()
+            return SymTime(h, m, s_)
         if name == "strftime":
             if args[0] == "%H:%M":
-                sod = zi(o.sod)
-                return hhmm_str(simp(sod / 3600), simp((sod / 60) % 60), ctx)
+                h, m, s_ = o.parts()
+                return hhmm_str(h, m, ctx)
             raise _uns("datetime.strftime format")
         if name == "__cmp__":
             op, other = args
@@ -363,13 +407,9 @@ def time_method(ip, o, name, args, kw, ctx):
             return NotImplemented
         if name == "__getattr__":
             a = args[0]
-            sod = zi(o.sod)
-            if a == "hour":
-                return simp(sod / 3600)
-            if a == "minute":
-                return simp((sod / 60) % 60)
-            if a == "second":
-                return simp(sod % 60)
+            if a in ("hour", "minute", "second"):
+                h, m, s_ = o.parts()
+                return {"hour": h, "minute": m, "second": s_}[a]
             return I.MethodRef(o, a)
         if name == "__bool__":
             return True
@@ -425,17 +465,6 @@ def time_method(ip, o, name, args, kw, ctx):
             ctx.used_models.add("str.split(':') on an opaque time string: 1, 2 or >=3 parts by the number of colons")
             k = ctx.choose([o.nc == 0, o.nc == 1, o.nc == 2])
             return TimeStrParts(o, k + 1)
-        if name == "__bool__":
-            raise _uns("truth of an opaque time string")
-        if name == "__format__" or name == "__str__":
-            return o
-        if name == "__eq__":
-            other = args[0]
-            if other is o:
-                return True
-            raise _uns("== on an opaque time string")
-        if name == "__binop__":
-            raise _uns("operator on an opaque time string")
         return NotImplemented
     if isinstance(o, TimeStrParts):
         if name == "__getitem__":
